@@ -179,6 +179,13 @@ def _bits(b: bytes) -> str:
     return "".join(f"{x:08b}" for x in b)
 
 
+def _short(v):
+    if isinstance(v, int) and not isinstance(v, bool) and abs(v) > 1 << 200:
+        return f"0x{v:x}"[:40] + f"..({v.bit_length()} bits)"
+    r = repr(v)
+    return r if len(r) < 80 else r[:77] + "..."
+
+
 def witness_cases(thorough: bool):
     cases = []
     for L in (0, 1, 2, 3):
@@ -219,9 +226,9 @@ def witness_search(ctx: Ctx, thorough: bool):
                     want = val if meth == "read_as_int" else val.to_bytes((n + 7) // 8, "big")
                     newpos = obj.attrs.get("pos")
                     if kind != "ok" or got != want or type(got).__mro__[-2] is not type(want) or newpos != p + n or bytes(obj) != buf:
-                        bad = (f"buffer {buf.hex() or '(empty)'} pos={p} n={n}: {meth} -> "
-                               f"{('raises ' + got) if kind != 'ok' else repr(got)}, cursor {newpos}; "
-                               f"expected {want!r}, cursor {p + n}")
+                        bad = (f"buffer {(buf[:16].hex() + ('..' if len(buf) > 16 else '')) or '(empty)'} ({len(buf)} bytes) pos={p} n={n}: {meth} -> "
+                               f"{('raises ' + got) if kind != 'ok' else _short(got)}, cursor {newpos}; "
+                               f"expected {_short(want)}, cursor {p + n}")
                         break
                 if bad:
                     break
@@ -242,7 +249,7 @@ def witness_search(ctx: Ctx, thorough: bool):
                 bits = _bits(buf)[p:p + n]
                 want = int(bits, 2) if bits else 0
                 if kind != "ok" or got != want:
-                    bad = f"_extract_bits({buf.hex() or '(empty)'}, {p}, {n}) -> {got!r}, expected {want}"
+                    bad = f"_extract_bits({buf[:16].hex() or '(empty)'}.. [{len(buf)} bytes], {p}, {n}) -> {_short(got)}, expected {_short(want)}"
                     break
             if bad:
                 break
